@@ -150,11 +150,18 @@ pub fn fuzz_stage(ctx: &Ctx, build_dir: &Path, budget: Duration) -> (u64, Vec<Va
 /// Miri with tree borrows (stricter than ASan: uninitialised reads, provenance).
 /// Returns (violations, report, harness_error).
 pub fn miri_stage(ctx: &Ctx, build_dir: &Path) -> (u64, Option<Value>, Option<String>) {
-    if ctx.tier.name() != "thorough" || !matches!(ctx.id.as_str(), "C08" | "C12" | "C13") {
+    if !matches!(ctx.id.as_str(), "C08" | "C12" | "C13") || (ctx.id == "C08" && ctx.tier.name() != "thorough") {
         return (0, None, None);
     }
     let harness = ctx.verif_dir.join("harness");
-    let count = std::env::var("VERIF_MIRI_CASES").ok().and_then(|s| s.parse::<u64>().ok()).unwrap_or(300);
+    // quick: a handful of generated operation histories, so that undefined behaviour which leaves the values
+    // intact (reads of never-written limbs, out-of-bounds pointer arithmetic) is visible on every change
+    let default_count = match (ctx.tier.name(), ctx.id.as_str()) {
+        ("quick", "C12") => 12,
+        ("quick", _) => 4,
+        _ => 300,
+    };
+    let count = std::env::var("VERIF_MIRI_CASES").ok().and_then(|s| s.parse::<u64>().ok()).unwrap_or(default_count);
     let mut cmd = Command::new("cargo");
     cmd.current_dir(&harness)
         .args(["+nightly", "miri", "run", "-q", "-p", "mlv", "--bin", "mlv-miri", "--"])
@@ -254,15 +261,21 @@ pub fn miri_targeted_stage(ctx: &Ctx, build_dir: &Path) -> (u64, Option<Value>, 
 /// oracle in the default, compact and alloc configurations.  Quick: constants + 4 inputs; thorough: 150.
 /// Returns (violations, report, harness_error).
 pub fn l32_stage(ctx: &Ctx, build_dir: &Path) -> (u64, Option<Value>, Option<String>) {
-    if !matches!(ctx.id.as_str(), "C05" | "C14" | "C18") || (ctx.id == "C05" && ctx.tier.name() == "quick") {
+    if !matches!(ctx.id.as_str(), "C12" | "C14" | "C18") {
         return (0, None, None);
     }
-    let sub = if ctx.id == "C18" { "U32" } else { "L32" };
-    if std::env::var("MLV_SKIP_FUZZ").is_ok() && ctx.id == "C05" {
-        return (0, None, None);
-    }
+    // C12: the generated big-integer operations themselves, on 32-bit limbs; C18: masks + rounding grid
+    let sub = match ctx.id.as_str() {
+        "C18" => "U32",
+        "C12" => "C12",
+        _ => "L32",
+    };
     let harness = ctx.verif_dir.join("harness");
-    let count: u64 = if ctx.tier.name() == "quick" { 4 } else { std::env::var("VERIF_L32_CASES").ok().and_then(|s| s.parse().ok()).unwrap_or(150) };
+    let count: u64 = match (ctx.tier.name(), ctx.id.as_str()) {
+        ("quick", "C12") => 8,
+        ("quick", _) => 4,
+        _ => std::env::var("VERIF_L32_CASES").ok().and_then(|s| s.parse().ok()).unwrap_or(150),
+    };
     let mut cmd = Command::new("cargo");
     cmd.current_dir(&harness)
         .args(["+nightly", "miri", "run", "-q", "--target", "i686-unknown-linux-gnu", "-p", "mlv", "--bin", "mlv-miri", "--"])
@@ -307,10 +320,77 @@ pub fn l32_stage(ctx: &Ctx, build_dir: &Path) -> (u64, Option<Value>, Option<Str
     (0, Some(report), Some(format!("32-bit-limb Miri stage was inconclusive: {}", stderr.lines().last().unwrap_or(""))))
 }
 
+/// C01 (f64), C02 (f32), C05 (both): the crate's 32-bit-limb code (u32 limbs, 9-digit chunks, 13-power small
+/// steps, the u32 hi64 helpers, the `[u32; 10]` 5^135) is dead on a 64-bit host.  Inputs weighted to the
+/// big-integer path are generated natively together with their oracle verdict (`mlv l32-inputs`) and parsed by
+/// Miri with --target i686-unknown-linux-gnu in four configurations.
+pub fn l32_file_stage(ctx: &Ctx, build_dir: &Path) -> (u64, Option<Value>, Option<String>) {
+    let which = match ctx.id.as_str() {
+        "C01" => "f64",
+        "C02" => "f32",
+        "C05" => "both",
+        _ => return (0, None, None),
+    };
+    if std::env::var("MLV_SKIP_L32").is_ok() {
+        return (0, Some(json!({"skipped": "MLV_SKIP_L32 set"})), None);
+    }
+    let count: u64 = if ctx.tier.name() == "quick" { 24 } else { std::env::var("VERIF_L32_CASES").ok().and_then(|s| s.parse().ok()).unwrap_or(1500) };
+    let file = build_dir.join(format!("l32-{}-{}.txt", ctx.id, ctx.seed));
+    let me = std::env::current_exe().expect("current_exe");
+    let st = Command::new(&me).args(["l32-inputs", &ctx.seed.to_string(), &count.to_string(), which, file.to_str().unwrap()]).status();
+    if !matches!(st, Ok(s) if s.success()) {
+        return (0, None, Some("cannot generate the 32-bit-limb stage inputs".into()));
+    }
+    let harness = ctx.verif_dir.join("harness");
+    let start = Instant::now();
+    let out = Command::new("cargo")
+        .current_dir(&harness)
+        .args(["+nightly", "miri", "run", "-q", "--target", "i686-unknown-linux-gnu", "-p", "mlv", "--bin", "mlv-miri", "--", "L32F", file.to_str().unwrap()])
+        .env("MIRIFLAGS", "-Zmiri-tree-borrows -Zmiri-disable-isolation -Zmiri-no-extra-rounding-error")
+        .env("CARGO_TARGET_DIR", build_dir.join("miri"))
+        .env("CARGO_NET_OFFLINE", "true")
+        .stdin(Stdio::null())
+        .output();
+    let out = match out {
+        Ok(o) => o,
+        Err(e) => return (0, None, Some(format!("cannot run Miri (i686): {e}"))),
+    };
+    let stdout = String::from_utf8_lossy(&out.stdout).to_string();
+    let stderr = String::from_utf8_lossy(&out.stderr).to_string();
+    let cases = stdout.lines().filter(|l| l.starts_with("MIRI-CASE")).count();
+    let report = json!({"engine": "Miri, --target i686-unknown-linux-gnu (32-bit limbs), tree borrows; inputs and expected bits generated natively",
+                        "inputs": count, "inputs_parsed": cases, "configurations": ["default", "compact", "alloc", "no_std+compact"], "wall_s": start.elapsed().as_secs_f64(),
+                        "ok": out.status.success(), "samples": stdout.lines().filter(|l| l.starts_with("MIRI-CASE")).take(6).collect::<Vec<_>>() });
+    if out.status.success() && stdout.contains("MIRI-OK L32F") && stdout.contains("pointer width = 32") {
+        return (0, Some(report), None);
+    }
+    let save = |message: String| {
+        let lines: Vec<String> = std::fs::read_to_string(&file).unwrap_or_default().lines().map(|s| s.to_string()).collect();
+        let last = stdout.lines().filter(|l| l.starts_with("MIRI-CASE L32F")).last().and_then(|l| l.split_whitespace().nth(2)).and_then(|s| s.parse::<usize>().ok());
+        let line = last.and_then(|i| lines.get(i).cloned()).unwrap_or_default();
+        let path = ctx.verif_dir.join("replays").join(format!("{}-l32f-{}-{}.json", ctx.id, ctx.seed, last.unwrap_or(0)));
+        std::fs::create_dir_all(ctx.verif_dir.join("replays")).ok();
+        let doc = json!({"property": ctx.id, "message": message, "case": {"kind": "l32f", "line": line}});
+        let _ = std::fs::write(&path, serde_json::to_string_pretty(&doc).unwrap());
+        println!("VIOLATION property={} replay={}", ctx.id, path.display());
+    };
+    if let Some(v) = stdout.lines().find(|l| l.starts_with("MIRI-VIOLATION")) {
+        eprintln!("32-bit-limb stage: {v}");
+        save(v.to_string());
+        return (1, Some(report), None);
+    }
+    if stderr.contains("Undefined Behavior") {
+        let detail: String = stderr.lines().filter(|l| l.contains("Undefined Behavior") || l.contains("-->")).take(6).collect::<Vec<_>>().join(" | ");
+        save(format!("Miri (i686) reported undefined behaviour: {detail}"));
+        return (1, Some(report), None);
+    }
+    (0, Some(report), Some(format!("32-bit-limb Miri stage was inconclusive: {}", stderr.lines().last().unwrap_or(""))))
+}
+
 /// For properties that are not process-supervised: run the registered fuzz
 /// campaigns after the in-process check and merge them into the evidence file.
 pub fn fuzz_poststep(ctx: &Ctx, code: i32) -> i32 {
-    let wants_l32 = matches!(ctx.id.as_str(), "C05" | "C14" | "C18");
+    let wants_l32 = matches!(ctx.id.as_str(), "C01" | "C02" | "C05" | "C14" | "C18");
     if (fuzz_targets_for(&ctx.id).is_empty() && !wants_l32) || code != 0 {
         return code;
     }
@@ -322,12 +402,20 @@ pub fn fuzz_poststep(ctx: &Ctx, code: i32) -> i32 {
     if err.is_none() {
         err = lerr;
     }
+    let (fv, l32f_report, ferr) = l32_file_stage(ctx, &build_dir);
+    violations += fv;
+    if err.is_none() {
+        err = ferr;
+    }
     let epath = ctx.verif_dir.join("evidence").join(format!("{}.json", ctx.id));
     if let Some(mut ev) = read_json(&epath) {
         let execs: u64 = reports.iter().map(|r| r["executions"].as_u64().unwrap_or(0)).sum();
         let base = ev["coverage"]["evaluations"].as_u64().unwrap_or(0);
         ev["coverage"]["evaluations"] = json!(base + execs);
         ev["coverage"]["fuzz"] = json!(reports);
+        if let Some(l) = &l32f_report {
+            ev["coverage"]["limb32_file_stage"] = l.clone();
+        }
         if let Some(l) = &l32_report {
             ev["coverage"]["limb32_stage"] = l.clone();
         }
@@ -345,7 +433,7 @@ pub fn fuzz_poststep(ctx: &Ctx, code: i32) -> i32 {
         println!("INCONCLUSIVE property={} {} (exit 2)", ctx.id, e);
         return 2;
     }
-    println!("OK property={} post-stages: {} fuzz campaign(s){}, no violation", ctx.id, reports.len(), if l32_report.is_some() { " + 32-bit-limb Miri stage" } else { "" });
+    println!("OK property={} post-stages: {} fuzz campaign(s){}, no violation", ctx.id, reports.len(), if l32_report.is_some() || l32f_report.is_some() { " + 32-bit-limb Miri stage" } else { "" });
     0
 }
 
@@ -437,6 +525,11 @@ pub fn run(ctx: &Ctx) -> i32 {
     if let Some(e) = terr {
         harness_error.get_or_insert(e);
     }
+    let (lv, l32_report, lerr) = l32_stage(ctx, &build_dir);
+    violations += lv;
+    if let Some(e) = lerr {
+        harness_error.get_or_insert(e);
+    }
     if violations == 0 {
         if let Some(e) = harness_error {
             eprintln!("HARNESS-ERROR property={} {}", ctx.id, e);
@@ -480,6 +573,9 @@ pub fn run(ctx: &Ctx) -> i32 {
     }
     if let Some(m) = miri_targeted_report {
         coverage.insert("miri_targeted".into(), m);
+    }
+    if let Some(m) = l32_report {
+        coverage.insert("limb32_stage".into(), m);
     }
     coverage.insert(
         "note".into(),
